@@ -447,6 +447,64 @@ impl Driver for C07 {
                 }
                 out.tag("expression-ranges-checked-on-published-box");
             }
+            // (f) the strict comparisons: the same model with its first <= / >= row written < / > accepts a subset of
+            // the assignments, so every range it publishes or derives must contain the assignments that satisfy that
+            // row strictly (no solver takes strict rows; only the ranges can be observed)
+            if let Some(k) = m.cons.iter().position(|c| matches!(c.kind, CKind::Cmp(_, Cmp::Le | Cmp::Ge, _))) {
+                let mut trng = unit_rng(ctx, "C07t", out.unit * 1000 + case);
+                let text = crate::text::model_text(&m, &mut trng, crate::text::Style::plain());
+                let body = text.find("s.t.").unwrap_or(0);
+                let pos = [text[body..].find(" <= "), text[body..].find(" >= ")].into_iter().flatten().min();
+                let CKind::Cmp(l, cmp, r) = &m.cons[k].kind else { unreachable!() };
+                if let Some(at) = pos {
+                    let at = body + at;
+                    let found_le = &text[at..at + 4] == " <= ";
+                    if found_le == (*cmp == Cmp::Le) {
+                        let strict = format!("{}{}{}", &text[..at], if found_le { " < " } else { " > " }, &text[at + 4..]);
+                        let parsed = std::panic::catch_unwind(|| rooc::RoocParser::new(strict.clone()).parse_and_transform(vec![], &indexmap::IndexMap::new()));
+                        if let Ok(Ok(model_s)) = parsed {
+                            let strictly: Vec<&Vec<Q>> = feasible_pts
+                                .iter()
+                                .map(|p| &**p)
+                                .filter(|p| match (l.eval(p), r.eval(p)) {
+                                    (Ok(a), Ok(b_)) => a != b_,
+                                    _ => false,
+                                })
+                                .collect();
+                            let db = derived_bounds(&model_s, None);
+                            let vars = db.variables();
+                            let lin = std::panic::catch_unwind(std::panic::AssertUnwindSafe(|| rooc::Linearizer::linearize(model_s)));
+                            for (i, n) in m.names.iter().enumerate() {
+                                let derived = vars.get(n).copied().unwrap_or((f64::NEG_INFINITY, f64::INFINITY));
+                                let published = match &lin {
+                                    Ok(Ok(lm)) => lm.domain().get(n).map(|dv| {
+                                        let (lo, hi, _) = vt_bounds(dv.get_type());
+                                        (lo, hi)
+                                    }),
+                                    _ => None,
+                                };
+                                for p in &strictly {
+                                    out.eval();
+                                    for (which, range) in [("derived", Some(derived)), ("published", published)] {
+                                        let Some((lo, hi)) = range else { continue };
+                                        if !inside(&p[i], lo, hi, &tol) && !reported {
+                                            reported = true;
+                                            out.violation(
+                                                &format!("{which}-range-excludes-feasible-point(strict-row)"),
+                                                &format!("with the row written as a strict comparison the {which} range [{lo}, {hi}] of {n} excludes its value {} at an assignment that satisfies the row strictly", show(&p[i])),
+                                                detail(json!({"point": point_json(&m, p), "text": strict})),
+                                            );
+                                        }
+                                    }
+                                }
+                            }
+                            if !strictly.is_empty() {
+                                out.tag("strict-row-twin-checked");
+                            }
+                        }
+                    }
+                }
+            }
             if !feasible_pts.is_empty() {
                 out.nontrivial(hash_str(&format!("{:?}", m)));
             }
